@@ -70,7 +70,7 @@ OUTSIDE = ["literal *spelling*: values are decimal, the type is fixed by the suf
            "bit-field *widths* and array designators as constant expressions (only the uses listed in the bounds)",
            "floating-point and address constants, sizeof, enumeration constants inside the expression",
            "expression trees deeper than 2 operators; among the sampled depth-2 trees those with more than one of * / %, with * / % "
-           "next to <<, with more than one <<, with * / % over operands other than L, -L, (T)L, or with a growing operator inside a shift count (wide symbolic products and "
+           "next to <<, with more than one <<, with * / % over operands other than L, -L, (T)L, with a product over long/long long literals, or with a growing operator inside a shift count (wide symbolic products and "
            "quotients of sub-expressions are out of the solvers' reach); shapes whose premise no literal assignment satisfies",
            f"shift counts built from literals larger than {SHIFT_COUNT_MAX} (undefined in C for every integer type)",
            "structure layout (padding/alignment): for struct fields only the bytes of the initialised field are compared"]
@@ -506,6 +506,8 @@ def heavy_on_leaves(e):
         return True
     if e[0] in ("mul", "div", "mod") and not all(csem._is_leaf(x) for x in e[1:]):
         return False
+    if e[0] == "mul" and any(sfx in ("l", "ul", "ll", "ull") for _, sfx in csem.literals(e)):
+        return False        # sampled products stay within 32 x 32 bits; the wide ones are in the depth-1 family
     return all(heavy_on_leaves(x) for x in e[1:] if isinstance(x, list))
 
 
